@@ -20,6 +20,7 @@ func init() {
 	suites["C13"] = suiteC13
 	monitors["C13"] = monitorC13
 	suites["C02"] = suiteC02
+	monitors["C02"] = monitorC02
 	suites["C01"] = suiteC01
 	monitors["C01"] = monitorC01
 	suites["C03"] = suiteC03
@@ -196,6 +197,21 @@ func monitorC13(c *Ctx, id string, cs Case, e *Exec, final []string) {
 		}
 	}
 	bigListProbe(c, id, cs)
+	if c.thorough {
+		// an ellipsis expanded to exactly the largest list (about 1.5 GB for a few seconds: thorough tier only)
+		var filled ast.ItemNode
+		func() {
+			defer func() { recover() }()
+			filled = ast.NewListNode(ast.NewBooleanNode(true), "...").FillVariables(map[string]interface{}{"...": 16777214})
+		}()
+		c.stats["limit-probe-items"]++
+		if filled == nil {
+			c.hit(id, cs, "limit-ellipsis", "an ellipsis expanded to exactly 16,777,215 elements is refused")
+		} else if filled.Size() != 16777215 || len(filled.Variables()) != 0 {
+			c.hit(id, cs, "limit-ellipsis", fmt.Sprintf("an ellipsis expanded 16,777,214 times: %d elements, %d variables", filled.Size(), len(filled.Variables())))
+		}
+		filled = nil
+	}
 	for _, p := range probes {
 		nmax := 16777215 / p.w
 		for _, n := range []int{nmax, nmax + 1} {
@@ -299,6 +315,11 @@ func min(a, b int) int {
 
 // ---------- C02 ----------
 
+// the frame of a message larger than any single item, on the library alone (once per run)
+func monitorC02(c *Ctx, id string, cs Case, e *Exec, final []string) {
+	bigMessagesProbe(c, id, cs)
+}
+
 func suiteC02(c *Ctx) {
 	// exhaustive 1-byte formats
 	for _, sp := range []leafSpec{{"NI", 1}, {"NU", 1}, {"NB", 1}} {
@@ -366,7 +387,15 @@ func suiteC02(c *Ctx) {
 		it := g.tree(treeOpts{depth: g.pick(5), vars: withVars, ellipsis: withVars && g.chance(0.3), maxLeaf: c.scale(600, 70000)})
 		switch g.pick(4) {
 		case 0:
-			g.hsmsMsg(it)
+			m := g.hsmsMsg(it)
+			if !withVars && g.chance(0.5) {
+				// re-addressed after it has been encoded once: the new frame carries the new address
+				m = g.add(Step{Op: "SS", Ref: m, Sid: g.sessionID(), Sys: g.sysBytes()})
+				if g.chance(0.5) {
+					m = g.add(Step{Op: "SW", Ref: m, B: g.chance(0.5)})
+					g.add(Step{Op: "SS", Ref: m, Sid: g.sessionID(), Sys: g.sysBytes()})
+				}
+			}
 		case 1: // not complete: optional wait bit / no session id
 			fn := g.pick(256)
 			wb := g.pick(3)
@@ -433,6 +462,30 @@ func suiteC01(c *Ctx) {
 				it = g.tree(treeOpts{depth: depth, maxLeaf: c.scale(400, 70000)})
 			}
 			m = g.hsmsMsg(it)
+		}
+		if g.chance(0.3) {
+			// the complete message has been encoded once (every entry is looked at when it is made); a message
+			// derived from it by the producers is a message of its own: other address, other wait bit, other bytes
+			switch g.pick(3) {
+			case 0:
+				m = g.add(Step{Op: "SS", Ref: m, Sid: g.sessionID(), Sys: g.sysBytes()})
+			case 1:
+				m = g.add(Step{Op: "SW", Ref: m, B: g.chance(0.5)})
+				m = g.add(Step{Op: "SS", Ref: m, Sid: g.sessionID(), Sys: g.sysBytes()})
+			default:
+				m = g.add(Step{Op: "FM", Ref: m})
+				m = g.add(Step{Op: "SS", Ref: m, Sid: g.sessionID(), Sys: g.sysBytes()})
+			}
+			g.count("producer-after-encoding")
+		}
+		if g.chance(0.08) {
+			// a long text: a decoder that keeps a view of its input instead of a copy shows when the input is reused
+			it := g.add(Step{Op: "NA", S: g.asciiBytes(1024 + g.pick(6000))})
+			m = g.hsmsMsg(it)
+			r := g.add(Step{Op: "RP", Ref: m})
+			g.add(Step{Op: "RP", Ref: r})
+			c.emit(Case{"roundtrip-long-text", g.steps, true})
+			continue
 		}
 		r := g.add(Step{Op: "RP", Ref: m})
 		if g.chance(0.3) {
@@ -515,6 +568,28 @@ func suiteC03(c *Ctx) {
 		}
 	}
 	flush("deep")
+	// long texts and long binary items: what the decoder returns must not be a view of the caller's buffer
+	// (the buffer is written over after every call in these cases)
+	for _, n := range []int{1023, 1024, 1025, 4096, 70000} {
+		txt := bytes.Repeat([]byte{'t'}, n)
+		for i := range txt {
+			txt[i] = byte('a' + i%26)
+		}
+		var hdr []byte
+		if n < 256 {
+			hdr = []byte{0x41, byte(n)}
+		} else if n < 65536 {
+			hdr = []byte{0x42, byte(n >> 8), byte(n)}
+		} else {
+			hdr = []byte{0x43, byte(n >> 16), byte(n >> 8), byte(n)}
+		}
+		item := append(append([]byte{}, hdr...), txt...)
+		bin := append([]byte{hdr[0] - 0x20}, hdr[1:]...)
+		bin = append(bin, txt...)
+		steps = append(steps, Step{Op: "HP", S: frame(item)}, Step{Op: "HP", S: frame(append([]byte{1, 2}, append(item, bin...)...))})
+		c.emit(Case{"long-items-scribbled", steps, true})
+		steps = nil
+	}
 	for i := 0; i < nmsg; i++ {
 		g := c.gen()
 		var it int
